@@ -217,3 +217,86 @@ def x_harnesses(rep, paths, tier):
     for nm, fn in (("x25519(k, u)", "vp_x25519"), ("EphemeralSecret::diffie_hellman", "vp_x_ephemeral_dh"), ("StaticSecret::diffie_hellman", "vp_x_static_dh"), ("ReusableSecret::diffie_hellman", "vp_x_reusable_dh")):
         T.append(lambda nm=nm, fn=fn: ladder_harness(rep, "serial64", paths, "x25519-dalek " + nm, fn, ("out", "scalar", "point"), spec_clamped, "all 2^256 secret byte strings, opaque peer point"))
     return T
+
+# ---- public-key derivation through the Edwards basepoint (layer G on the linked IR of x25519-dalek + dependencies)
+class Phi:
+    """the Montgomery u-coordinate of the image of an Edwards group element under the birational map (opaque 32-byte encoding)"""
+    def __init__(self, g): self.g = g
+
+def phi_intercept(it):
+    def to_mont(it_, a, name):
+        obj = Phi(it_.get(a[1])); R = it_.regions[a[0].r]
+        for k in range(32): R.b[a[0].o + k] = (obj, k, 32)
+        return None
+    it.intercept.insert(0, (r'^curve25519_dalek::edwards::EdwardsPoint::to_montgomery$', to_mont))
+
+def pub_harness(rep, paths, nm, fn):
+    """PublicKey::from(&secret) = to_montgomery(clamp(bytes) * B): together with to_montgomery(B) = 9 (C12) and the birational map being a
+    group homomorphism (trusted mathematics) this is X25519(bytes, 9) of RFC 7748 section 6.1"""
+    from checks.c14 import linked
+    from checks import c04
+    from llsym.gsym import GSym, G
+    t0 = time.time()
+    rec = dict(harness="serial64/x25519-dalek " + nm, config="serial64", function=nm, goals=[], bounds="all 2^256 secret byte strings (clamped by the real code), all digit vectors of the recoding",
+               assumptions=["Scalar recodings per their certificates (C04)", "to_montgomery(B) = 9 (C12) and the birational map is a group homomorphism (trusted mathematics): phi(c*B) = u([c] 9)"])
+    status = "ok"
+    try:
+        it = GSym(linked(paths)); phi_intercept(it)
+        sp = it.new_region("bytes", 32); sb = [it.ctx.input("k%d" % i, 0, 255) for i in range(32)]
+        for i in range(32): it.store(Ptr(sp.r, i), sb[i], 1)
+        out = it.new_region("out", 32)
+        it.call(fn, [out, sp])
+        cells = [it.regions[out.r].b.get(k) for k in range(32)]
+        ph = cells[0][0] if cells[0] else None
+        okp = isinstance(ph, Phi) and all(c is not None and c[0] is ph and c[1] == k for k, c in enumerate(cells))
+        rec["goals"].append(dict(goal="the 32 output bytes are exactly to_montgomery(E) of one Edwards element E", verdict="unsat" if okp else "sat", solver_s=0.0, cases=1, solver_calls=0, kind="structural"))
+        from llsym import fconst
+        u_b = (1 + fconst.BY) * pow(1 - fconst.BY, fconst.P - 2, fconst.P) % fconst.P
+        rec["goals"].append(dict(goal="ground: the birational map sends the Ed25519 basepoint to u = (1+y_B)/(1-y_B) = 9", verdict="unsat" if u_b == 9 else "sat", solver_s=0.0, cases=1, solver_calls=0, kind="ground identity"))
+        tags = sorted(it.byte_scalars)
+        ok1 = okp and len(tags) == 1 and len(it.digits) == 1
+        rec["goals"].append(dict(goal="exactly one scalar, assembled from the secret bytes, is recoded", verdict="unsat" if ok1 else "sat", solver_s=0.0, cases=1, solver_calls=0, kind="structural"))
+        if not ok1: status = "violation"; rec["why"] = "public key is not to_montgomery of one scalar multiple"
+        else:
+            (tag, kind), = it.digits.keys()
+            val = byte_int(it.byte_scalars[tag]); want = spec_clamped(sb, it)
+            diff = ph.g - G.base("B").scale(c04.spec_scalar(it, tag, kind))
+            goals = [("E == (sum of the recoding's digits) * B", Cond("cmp", "ne", diff.c.get("B", ZERO), ZERO) if set(diff.c) <= {"B"} else Cond("const", True)),
+                     ("the recoded scalar is the RFC 7748 clamped integer of the secret bytes", Cond("cmp", "ne", val, want)),
+                     ("it is below 2^255 (domain of the recoding certificate)", Cond("cmp", "gt", it.byte_scalars[tag][31], Poly.const(127)))]
+            pr = smt.Problem(it.ctx)
+            for gname, viol in goals:
+                v, model, dt, info = pr.check(viol, timeout_s=60, split=False)
+                rec["goals"].append(dict(goal=gname, verdict=v, solver_s=round(dt, 3), kind="QF_LIA" if info.get("solver_calls") else "polynomial identity mod p", **info))
+                if v == "sat" and status == "ok":
+                    status = "violation"; rec["why"] = gname + " fails"
+                    kb = bytes(int((model or {}).get("k%d" % i, 0)) & 255 for i in range(32))
+                    ok, det = pub_replay(fn, [kb, bytes([255] * 32), bytes(32), bytes(range(3, 35))]); rec["replay"] = det; rec["reproduced"] = ok
+                    if not ok: status = "inconclusive"; rec["why"] += " (not reproduced natively: %s)" % (det,)
+                elif v not in ("sat", "unsat") and status == "ok": status = "inconclusive"; rec["why"] = "solver verdict " + v
+        rec["status"] = status; rec["ir_steps"] = it.steps
+    except Unsupported as e:
+        rec["status"] = "inconclusive"; rec["why"] = "unsupported IR: " + str(e)[:400]
+    except PanicReached as e:
+        rec["status"] = "violation"; rec["why"] = "panic reached: " + str(e)[:200]
+    rec["wall_s"] = round(time.time() - t0, 3)
+    rep.add(**rec); rep.functions.add(nm); rep.configs.add("serial64")
+
+def pub_replay(fn, cands):
+    """native: the Edwards-basepoint route of curve25519-dalek against the RFC 7748 ladder on u = 9"""
+    from vp import native
+    try: outs = native.run("serial64", [("g_mont_from_base_clamped", [k]) for k in cands])
+    except Exception as e: return None, "native runner failed: " + str(e)[:200]
+    for k, got in zip(cands, outs):
+        if got is None: return None, "native runner does not know g_mont_from_base_clamped"
+        if isinstance(got, tuple): return True, dict(secret=k.hex(), native_result=str(got)[:120])
+        c = int.from_bytes(k, "little"); c = (c & ((1 << 255) - 1) & ~7) | (1 << 254)
+        want = x25519_ref(c, 9).to_bytes(32, "little")
+        if got != want: return True, dict(secret=k.hex(), native_result=got.hex(), specification=want.hex())
+    return False, "EdwardsPoint::mul_base_clamped(k).to_montgomery() equals the RFC 7748 ladder on u = 9 for %d byte strings" % len(cands)
+
+def pub_harnesses(rep, paths, tier):
+    T = []
+    for nm, fn in (("PublicKey::from(&StaticSecret)", "vp_x_public_from_static"), ("PublicKey::from(&EphemeralSecret)", "vp_x_public_from_ephemeral_bytes"), ("PublicKey::from(&ReusableSecret)", "vp_x_public_from_reusable")):
+        T.append(lambda nm=nm, fn=fn: pub_harness(rep, paths, nm, fn))
+    return T
